@@ -7,17 +7,15 @@
         → ok <dst hex>            listing cryptoBlockAsm / X2 / X4 / X8 / X16; `inplace`: dst = src
     asm.expandkey <key>           → ok <enc words> <dec words>        listing expandKeyAsm
     asm.ghash <H> <tag> <data>    → ok <tag>                          listing gHashBlocks, count = |data|/16
-    asm.seal <rk> <tagSize> <nonce> <pt> <aad> <dstLen>
-        → ok <dst hex>            listing sealAsm; dst and temp are zero-filled buffers of dstLen / 512 bytes
-    asm.open <rk> <tagSize> <nonce> <ct> <aad> <dstLen>
+    asm.seal <rk> <tagSize> <nonce> <pt> <aad> <dstLen> [inplace]
+        → ok <dst hex>            listing sealAsm; dst and temp are zero-filled buffers of dstLen / 32 bytes (`var temp [2*BlockSize]byte` of the Go glue)
+    asm.open <rk> <tagSize> <nonce> <ct> <aad> <dstLen> [inplace]
         → ok <ret> <dst hex> <ct hex>   listing openAsm (the ciphertext buffer is printed too: the routine writes to it)
   Every failure of the interpreter (unknown mnemonic, operand shape, access outside a region, undefined
   flag, fuel) is answered `error <message>`.
 -/
 import SMGo.Spec.Bytes
-import SMGo.Model.ISAVal
-import SMGo.Gen.AsmData
-import SMGo.Gen.ListAmd64Asm
+import SMGo.Model.ISAValInst
 import SMGo.Gen.ListAmd64Gcm
 open SMGo
 open SMGo.Model.ISAVal
@@ -31,32 +29,9 @@ def toNats (b : Bytes) : List Nat := b.map (·.toNat)
 def ofNats (l : List Nat) : Bytes := l.map UInt8.ofNat
 def showN (l : List Nat) : String := if l.isEmpty then "-" else Bytes.toHex (ofNats l)
 
-/-- the read-only symbols the listings refer to, by the name used in the listing -/
-def symbols : List (String × List Nat) :=
-  [("Shuffle", Gen.AsmData.amd64_Shuffle),
-   ("PreAffineMatrix", Gen.AsmData.amd64_PreAffineMatrix),
-   ("PostAffineMatrix", Gen.AsmData.amd64_PostAffineMatrix),
-   ("CK", Gen.AsmData.amd64_CK),
-   ("FK", Gen.AsmData.amd64_FK),
-   ("AND_MASK", Gen.AsmData.amd64_AND_MASK),
-   ("Counter_Add1", Gen.AsmData.amd64_Counter_Add1),
-   ("Counter_Add2", Gen.AsmData.amd64_Counter_Add2),
-   ("Counter_Add3", Gen.AsmData.amd64_Counter_Add3),
-   ("GCM_POLY", Gen.AsmData.amd64_GCM_POLY),
-   ("LOWER_MASK", Gen.AsmData.amd64_LOWER_MASK),
-   ("MERGE_H01", Gen.AsmData.amd64_MERGE_H01),
-   ("MERGE_H23", Gen.AsmData.amd64_MERGE_H23),
-   ("SHUFFLE_X_LANES", Gen.AsmData.amd64_SHUFFLE_X_LANES),
-   ("Shuffle1", Gen.AsmData.amd64_Shuffle1),
-   ("Shuffle2", Gen.AsmData.amd64_Shuffle2)]
-
-def nsyms : Nat := symbols.length
-
-/-- a state with the given argument regions (in this order) and frame -/
+/-- a state with the given argument regions (in this order) and frame; the registers hold junk -/
 def state (args : List Region) (frame : List (String × Nat)) : State :=
   mkState junkG junkV junkK symbols args frame
-
-def arg (j : Nat) : Nat := argBase nsyms j
 
 /-- big-endian printed words ↦ the bytes of a `[]uint32` in memory -/
 def wordsToMem (b : List Nat) : List Nat :=
@@ -89,26 +64,25 @@ def answer (r : Except String String) : String :=
   | .ok s => "ok " ++ s
   | .error e => "error " ++ e
 
+/-- the dwords of printed big-endian words -/
+def wordsOf (b : List Nat) : List Nat :=
+  (List.range (b.length / 4)).map (fun i => unlanes 8 ((b.drop (4 * i)).take 4).reverse)
+
 def kernel (n : Nat) (rk blocks : List Nat) (inplace : Bool) : Except String String := do
   let rt ← match n with
     | 1 => rtX1 | 2 => rtX2 | 4 => rtX4 | 8 => rtX8 | 16 => rtX16
     | _ => .error "no such kernel"
   if rk.length ≠ 128 then .error "rk must be 32 words" else
   if blocks.length ≠ 16 * n then .error "blocks must be 16·n bytes" else
-  let rkR : Region := ⟨"rk", wordsToMem rk, false⟩
   let s :=
-    if inplace then
-      state [rkR, ⟨"dst", blocks, true⟩] [("rk", arg 0), ("dst", arg 1), ("src", arg 1)]
-    else
-      state [rkR, ⟨"dst", List.replicate (16 * n) 0xEE, true⟩, ⟨"src", blocks, false⟩]
-        [("rk", arg 0), ("dst", arg 1), ("src", arg 2)]
+    if inplace then kernelStateInPlace junkG junkV junkK (wordsOf rk) blocks
+    else kernelState junkG junkV junkK (wordsOf rk) (List.replicate (16 * n) 0xEE) blocks
   let s' ← runRoutine rt fuel s
   let d ← region s' "dst"
   pure (showN d)
 
 def expandKey (key : List Nat) : Except String String := do
-  let s := state [⟨"mk", key, false⟩, ⟨"enc", List.replicate 128 0xEE, true⟩, ⟨"dec", List.replicate 128 0xEE, true⟩]
-    [("mk", arg 0), ("enc", arg 1), ("dec", arg 2)]
+  let s := expandKeyState junkG junkV junkK key (List.replicate 128 0xEE) (List.replicate 128 0xEE)
   let s' ← runRt rtExpand s
   let e ← region s' "enc"
   let d ← region s' "dec"
@@ -121,16 +95,20 @@ def ghash (h tag data : List Nat) : Except String String := do
   let t ← region s' "tag"
   pure (showN t)
 
-def sealOpen (isOpen : Bool) (rk : List Nat) (tagSize : Nat) (nonce input aad : List Nat) (dstLen : Nat) :
-    Except String String := do
+def sealOpen (isOpen : Bool) (rk : List Nat) (tagSize : Nat) (nonce input aad : List Nat) (dstLen : Nat)
+    (inplace : Bool) : Except String String := do
   let inName := if isOpen then "cipher" else "plaintext"
   let inLen := if isOpen then "cipherLen" else "plainLen"
+  -- `inplace`: the input lies at the start of the dst buffer (Seal(pt[:0], …, pt, …) / Open(ct[:0], …, ct, …))
+  let dstR : Region :=
+    if inplace then ⟨"dst", input ++ List.replicate (dstLen - input.length) 0, true⟩
+    else ⟨"dst", List.replicate dstLen 0, true⟩
   let s := state
-    [⟨"rk", wordsToMem rk, false⟩, ⟨"dst", List.replicate dstLen 0, true⟩, ⟨"nonce", nonce, false⟩,
-     ⟨inName, input, isOpen⟩, ⟨"aData", aad, false⟩, ⟨"tmp", List.replicate 512 0, true⟩]
+    [⟨"rk", wordsToMem rk, false⟩, dstR, ⟨"nonce", nonce, false⟩,
+     ⟨inName, input, isOpen⟩, ⟨"aData", aad, false⟩, ⟨"tmp", List.replicate 32 0, true⟩]
     [("rk", arg 0), ("tagSize", tagSize), ("dst", arg 1), ("nonce", arg 2), ("nonceLen", nonce.length),
-     ("nonceCap", nonce.length), (inName, arg 3), (inLen, input.length), ("aData", arg 4), ("aLen", aad.length),
-     ("tmp", arg 5), ("ret1", 0xEEEE)]
+     ("nonceCap", nonce.length), (inName, if inplace then arg 1 else arg 3), (inLen, input.length),
+     ("aData", arg 4), ("aLen", aad.length), ("tmp", arg 5), ("ret1", 0xEEEE)]
   let s' ← runRt (if isOpen then rtOpen else rtSeal) s
   let d ← region s' "dst"
   if isOpen then
@@ -158,11 +136,14 @@ def handle (toks : List String) : Option String :=
     match parseBytes h, parseBytes tag, parseBytes data with
     | some h, some tag, some data => some (answer (ghash (toNats h) (toNats tag) (toNats data)))
     | _, _, _ => some "bad-op"
-  | [cmd, rk, tagSize, nonce, inp, aad, dstLen] =>
+  | cmd :: rk :: tagSize :: nonce :: inp :: aad :: dstLen :: rest =>
     if cmd ≠ "asm.seal" ∧ cmd ≠ "asm.open" then none else
+    if rest ≠ [] ∧ rest ≠ ["inplace"] then some "bad-op" else
     match parseBytes rk, tagSize.toNat?, parseBytes nonce, parseBytes inp, parseBytes aad, dstLen.toNat? with
     | some rk, some t, some nonce, some inp, some aad, some dl =>
-      some (answer (sealOpen (cmd = "asm.open") (toNats rk) t (toNats nonce) (toNats inp) (toNats aad) dl))
+      if rest = ["inplace"] ∧ dl < inp.length then some "bad-op" else
+      some (answer (sealOpen (cmd = "asm.open") (toNats rk) t (toNats nonce) (toNats inp) (toNats aad) dl
+        (rest = ["inplace"])))
     | _, _, _, _, _, _ => some "bad-op"
   | _ => none
 
